@@ -363,6 +363,20 @@ func TestVerifC09(t *testing.T) {
 		res.Obs("streams_with_all_truncation_points", 1)
 	}
 
+	// 2b. the reader fails with a non-EOF error at PRNG points of generated streams
+	nFail := vlib.Scale(1500, 40000)
+	for i := 0; i < nFail; i++ {
+		r := root.SplitN("readerr", i)
+		stream, _, desc := genStream(r, false)
+		if len(stream) == 0 || len(stream) > 60000 {
+			continue
+		}
+		for rep := 0; rep < 3; rep++ {
+			k := r.Intn(len(stream) + 1)
+			checkReaderError(res, stream, k, r.Uint64(), fmt.Sprintf("readerr/%d/%d", i, rep), desc)
+		}
+	}
+
 	// 3. arbitrary bytes (biased towards prefix-looking bytes)
 	nArb := vlib.Scale(4000, 400000)
 	for i := 0; i < nArb; i++ {
@@ -444,6 +458,7 @@ func TestVerifC09(t *testing.T) {
 	res.RequireObs("padding_sizes_checked", 5001)
 	res.RequireObs("budgets_checked", 20000)
 	res.RequireObs("pipe_cases", 100)
+	res.RequireObs("reader_error_inside_chunk", 500)
 	res.RequireObs("terminal_EOF", 1)
 	res.RequireObs("terminal_ErrUnexpectedEOF", 1)
 	res.RequireObs("terminal_ErrTooLong", 1)
@@ -508,6 +523,63 @@ func checkBudget(res *vlib.Result, n int) {
 	}
 	if total > n || cw.n > n {
 		res.Violatef("budget-exceeded", rec, "WriteData(len=MaxDataForSize(%d)=%d) occupies %d bytes", n, m, cw.n)
+	}
+}
+
+var errCarrier = errors.New("carrier reset by peer")
+
+// failingReader delivers the first k bytes (in short reads) and then fails
+// with an error that is not an end-of-file (a carrier dying mid-frame).
+type failingReader struct {
+	b []byte
+	r *vlib.Rand
+}
+
+func (f *failingReader) Read(p []byte) (int, error) {
+	if len(f.b) == 0 {
+		return 0, errCarrier
+	}
+	n := f.r.Range(1, 9)
+	if n > len(p) {
+		n = len(p)
+	}
+	if n > len(f.b) {
+		n = len(f.b)
+	}
+	copy(p, f.b[:n])
+	f.b = f.b[n:]
+	return n, nil
+}
+
+// checkReaderError: when the reader fails at byte k, ReadData may return only
+// chunks that were delivered completely, byte-exact, and must end with an error
+// (never a chunk pieced together from what happened to arrive).
+func checkReaderError(res *vlib.Result, stream []byte, k int, rseed uint64, caseID, desc string) {
+	res.Eval(1)
+	res.Obs("reader_error_cases", 1)
+	ref := refDecode(stream[:k])
+	rec := caseRec{Case: caseID, Stream: hexPrefix(stream), Len: len(stream), Mode: fmt.Sprintf("non-EOF error after %d bytes", k), Seed: rseed, Desc: desc}
+	fr := &failingReader{b: stream[:k], r: vlib.NewRand(rseed)}
+	var chunks [][]byte
+	var err error
+	if res.Guard("panic:ReadData:reader-error", rec, func() { chunks, err = decodeAll(fr, len(stream)+1) }) {
+		return
+	}
+	if len(chunks) > len(ref.chunks) {
+		res.Violatef("decode-mismatch:reader-error:incomplete-chunk-returned", rec, "reader failed after %d bytes: ReadData returned %d chunks, only %d were delivered completely (last returned chunk has %d bytes)", k, len(chunks), len(ref.chunks), len(chunks[len(chunks)-1]))
+		return
+	}
+	for i := range chunks {
+		if !bytes.Equal(chunks[i], ref.chunks[i]) {
+			res.Violatef("decode-mismatch:reader-error:chunk-differs", rec, "reader failed after %d bytes: chunk %d differs from what was written", k, i)
+			return
+		}
+	}
+	if err == nil || err == io.EOF && ref.err != io.EOF {
+		res.Violatef("decode-mismatch:reader-error:error-swallowed", rec, "reader failed after %d bytes with a non-EOF error inside a chunk: terminal %s", k, errName(err))
+	}
+	if len(chunks) == len(ref.chunks) && ref.err == io.ErrUnexpectedEOF {
+		res.Obs("reader_error_inside_chunk", 1)
 	}
 }
 
